@@ -14,6 +14,8 @@ seen = {}
 def kind_of(msg, dist):
     if 'byteCopy' in msg:
         return 'bytecopy'
+    if 'split delivery' in msg:
+        return 'split'
     if any(x in msg for x in ('header written', 'read back', 'writeTo', 'BFINAL is', 'code length code is neither')):
         return 'whdr'
     if ('Generate' in msg and 'GenerateForHeader' not in msg) or 'Kraft' in msg or ('gets length' in msg):
@@ -52,6 +54,8 @@ for line in open(out):
         inp = {"histogram": lens, "length_limit": int(pf)}
     elif kind == 'bytecopy':
         inp = {"curr_dist_length": lens}
+    elif kind == 'split':
+        inp = {"literal_length_code_lengths": lens, "distance_code_lengths": dist, "first_piece_ends_at_byte": int(pf)}
     else:
         inp = {"distance_code_lengths": lens, "prefill": int(pf)}
     rep = {"property": prop, "obligation": "bounded[%s]: %s" % (kind, cls), "failing_input": inp, "message": msg}
